@@ -44,9 +44,29 @@ def trampoline():
     70 000 (unused) locals makes CPython allocate one 1 MiB chunk whose free half then holds all nested frames."""
     global _TRAMP
     if _TRAMP is None:
-        src = 'def _tramp(fn, _never=False):\n    if _never:\n' + ''.join('        x%d = 0\n' % i for i in range(70000)) + '    return fn()\n'
+        import marshal
+        import sys
+        import tempfile
+        cache = os.path.join(tempfile.gettempdir(), 'mirsym-tramp-%d.%d.%d.marshal' % sys.version_info[:3])
+        code = None
+        try:
+            with open(cache, 'rb') as fh:
+                code = marshal.loads(fh.read())
+        except Exception:
+            code = None
+        if code is None:
+            # compiling 70 000 assignments takes ~3 s: the code object is cached (and rebuilt whenever absent)
+            src = 'def _tramp(fn, _never=False):\n    if _never:\n' + ''.join('        x%d = 0\n' % i for i in range(70000)) + '    return fn()\n'
+            code = compile(src, '<mirsym-trampoline>', 'exec')
+            try:
+                tmpf = cache + '.%d' % os.getpid()
+                with open(tmpf, 'wb') as fh:
+                    fh.write(marshal.dumps(code))
+                os.replace(tmpf, cache)
+            except Exception:
+                pass
         ns = {}
-        exec(compile(src, '<mirsym-trampoline>', 'exec'), ns)
+        exec(code, ns)
         _TRAMP = ns['_tramp']
     return _TRAMP
 
@@ -113,7 +133,7 @@ class Exploration:
 
 
 def explore(I, H, jobs=16, max_paths=2000000, time_budget=3600, keep_summaries=40, keep_all=False,
-            slice_s=3.0, per_key=5, on_result=None):
+            slice_s=3.0, per_key=5, on_result=None, warm_s=1.5):
     """explores all paths of harness H.  Returns an Exploration."""
     global _I, _H
     _I, _H = I, H
@@ -123,11 +143,10 @@ def explore(I, H, jobs=16, max_paths=2000000, time_budget=3600, keep_summaries=4
         ex.all_summaries = []
     t0 = time.time()
     queue = collections.deque([[]])
-    if jobs <= 1:
-        pool = None
-    else:
-        ctx = mp.get_context('fork')
-        pool = ctx.Pool(jobs)
+    pool = None
+    # the first paths run in this process: small families finish without a pool, and for large ones the lazily built
+    # caches (parsed bodies, resolutions, models) are warm before the workers are forked and inherit them
+    warm_until = t0 + (warm_s if jobs > 1 else float('inf'))
     pending = []
     stats_seen = {}
     try:
@@ -138,8 +157,10 @@ def explore(I, H, jobs=16, max_paths=2000000, time_budget=3600, keep_summaries=4
                 break
             if ex.unsupported:
                 break
+            if pool is None and time.time() > warm_until and len(queue) > 1:
+                pool = mp.get_context('fork').Pool(jobs)
             if pool is None:
-                res = _worker((queue.popleft(), slice_s, 1000))
+                res = _worker((queue.popleft(), min(slice_s, 0.5) if jobs > 1 else slice_s, 1000))
                 done = [res]
             else:
                 while queue and len(pending) < jobs * 2:
